@@ -84,6 +84,10 @@ func VerifyFuncX(P *Program, DB *ContractDB, fc *FuncContract, safety bool, excu
 		}
 		f.vals[fv] = v
 		facts = append(facts, t.typeFacts(st, c, fv.Type()))
+		if capturedByReference(fn, fv) {
+			// the address of a variable of the enclosing function: never nil
+			facts = append(facts, fmt.Sprintf("(not (= %s 0))", c))
+		}
 	}
 	f.bindParams(args)
 	f.entry = st.clone()
@@ -403,4 +407,32 @@ func axiomRelevant(DB *ContractDB, ax *Clause, blob string) bool {
 		}
 	}
 	return false
+}
+
+// capturedByReference: the free variable is bound, at every closure creation in the parent, to a local variable's cell.
+func capturedByReference(fn *ssa.Function, fv *ssa.FreeVar) bool {
+	parent := fn.Parent()
+	if parent == nil {
+		return false
+	}
+	idx := -1
+	for i, x := range fn.FreeVars {
+		if x == fv {
+			idx = i
+		}
+	}
+	found := false
+	for _, b := range parent.Blocks {
+		for _, in := range b.Instrs {
+			mc, ok := in.(*ssa.MakeClosure)
+			if !ok || mc.Fn != fn || idx < 0 || idx >= len(mc.Bindings) {
+				continue
+			}
+			if _, isAlloc := mc.Bindings[idx].(*ssa.Alloc); !isAlloc {
+				return false
+			}
+			found = true
+		}
+	}
+	return found
 }
